@@ -74,8 +74,8 @@ def write_matrix(path, M, enc, layer, dtype, layout):
                 arr = ds[()]
                 attrs = dict(ds.attrs)
                 full = f'{key}/{nme}' if nme else key
-                if arr.size == 0:
-                    continue
+                if arr.size == 0 and layout != 'contiguous':
+                    continue                              # (a zero-length array cannot be cut into one-element chunks)
                 del f[full]
                 if layout == 'contiguous':
                     new = f.create_dataset(full, data=arr)
